@@ -74,9 +74,19 @@ inline PSC::Date makeDate(const std::string &dateStr) {
         else yearStr += c;
     }
 
-    std::chrono::day day(std::stoul(dayStr));
-    std::chrono::month month(std::stoul(monthStr));
-    std::chrono::year year(std::stoul(yearStr));
+    unsigned long d, m, y;
+    try {
+        d = std::stoul(dayStr);
+        m = std::stoul(monthStr);
+        y = std::stoul(yearStr);
+    } catch (const std::out_of_range&) {
+        d = m = y = 0;
+    }
+    if (d > 31 || m > 12 || y > 32767) d = m = y = 0; // not ok(): reported as 'Invalid Date!' on evaluation
+
+    std::chrono::day day((unsigned) d);
+    std::chrono::month month((unsigned) m);
+    std::chrono::year year((int) y);
 
     return PSC::Date(std::chrono::year_month_day(year, month, day));
 }
